@@ -553,6 +553,7 @@ class Interp:
         if seq is None:
             # symbolic iteration: body once with an opaque element
             self.events.append(("symbolic-loop", (func.qualname, ast.unparse(s.iter))))
+            SOFT_EVENTS.append("loop over a sequence the interpreter could not enumerate: `for ... in %s` in %s" % (ast.unparse(s.iter)[:60], func.qualname))
             self.assign(s.target, Sym("elem", it), env, func)
             try:
                 self.exec_block(s.body, env, func)
@@ -1526,6 +1527,20 @@ class Interp:
         return self.call_value(callee, name, args, kwargs, e, env, func)
 
     def call_value(self, callee, name, args, kwargs, e, env, func):
+        if isinstance(callee, OperatorV) and len(args) == 1:
+            obj = args[0]
+            if callee.kind == "attrgetter" and len(callee.args) == 1 and isinstance(callee.args[0], str) and "." not in callee.args[0]:
+                return _b_getattr(self, [obj, callee.args[0]], None, e, func)
+            if callee.kind == "itemgetter" and len(callee.args) == 1:
+                seq = obj if isinstance(obj, (list, tuple, dict)) else self.concrete_iter(obj)
+                k = callee.args[0]
+                if isinstance(seq, dict) and k in seq:
+                    return seq[k]
+                if isinstance(seq, (list, tuple)) and isinstance(k, int) and -len(seq) <= k < len(seq):
+                    return seq[k]
+            if callee.kind == "methodcaller" and isinstance(callee.args[0], str):
+                return self.call_method(obj, callee.args[0], callee.args[1:], callee.kwargs, e, env, func)
+            return Sym("call", Sym("operator", callee.kind, *callee.args), *args)
         if isinstance(callee, PartialV):
             kw = dict(callee.kwargs)
             kw.update(kwargs or {})
@@ -1597,6 +1612,12 @@ class Interp:
                 return Sym("enum", cls.name, args[0])
             if cls.is_subclass_of("Exception") or cls.name.endswith("Error") or cls.name.startswith("Invalid"):
                 return Sym("exc", cls.name)
+            if self.hooks.get("construct_module_classes") and func is not None and cls.module is func.module and "__init__" in cls.methods \
+                    and not cls.base_names and cls.name not in self.hooks.get("construct_opaque", ()):
+                # opt-in: a plain helper class of the analysed module is instantiated by running its __init__
+                o = Obj(cls, cls.name)
+                self.call_function(cls.methods["__init__"], list(args), kwargs, recv=o)
+                return o
             rf = record_fields(cls)
             if rf is not None:
                 kind, fields = rf
@@ -1628,6 +1649,10 @@ class Interp:
                 return self.struct_pack(args[0], args[1:], e, func)
             if name == "calcsize":
                 return _struct.calcsize(args[0])
+        if name in ("islice", "chain") and func is not None and func.module.imports.get(name) == ("itertools", name) and args and not kwargs:
+            r = _itertools_call(self, name, args)
+            if r is not None:
+                return r
         if name in _BUILTINS:
             return _BUILTINS[name](self, args, kwargs, e, func)
         if isinstance(callee, Sym) and callee.op == "attr" and len(callee.args) == 2 and isinstance(callee.args[1], str):
@@ -1658,6 +1683,32 @@ class Interp:
             if name in recv.attrs:
                 return self.call_value(recv.attrs[name], name, args, kwargs, e, env, func)
             return Sym("call", "%s.%s" % (recv.name, name), *args)
+        if isinstance(recv, Sym) and recv.op in ("module", "name") and recv.args[0] == "itertools" and name in ("islice", "chain") and args:
+            r = _itertools_call(self, name, args)
+            if r is not None:
+                return r
+        if isinstance(recv, Sym) and recv.op in ("module", "name") and recv.args[0] == "operator" and name in ("attrgetter", "itemgetter", "methodcaller") \
+                and args and all(isinstance(a, (str, int)) for a in args[:1]):
+            return OperatorV(name, args, kwargs)
+        if isinstance(recv, Sym) and recv.op in ("module", "name") and recv.args[0] == "functools" and name == "reduce" and len(args) in (2, 3):
+            # functools.reduce(operator.<binary op>, iterable[, initial]) over a concrete sequence
+            fn_ = args[0]
+            opn = None
+            if isinstance(fn_, Sym) and fn_.op in ("attr", "modattr") and fn_.args and fn_.args[-1] in _OPERATOR_FUNCS and (
+                    fn_.args[0] == "operator" or (isinstance(fn_.args[0], Sym) and fn_.args[0].args and fn_.args[0].args[0] == "operator")):
+                opn = _OPERATOR_FUNCS[fn_.args[-1]]
+            seq = self.concrete_iter(args[1])
+            if opn is not None and seq is not None:
+                items = list(seq)
+                if len(args) == 3:
+                    acc = args[2]
+                elif items:
+                    acc, items = items[0], items[1:]
+                else:
+                    raise Raised("TypeError", e, "reduce() of empty iterable with no initial value")
+                for x in items:
+                    acc = self.binop(opn(), acc, x, e)
+                return acc
         if isinstance(recv, Sym) and recv.op in ("module", "name") and recv.args[0] == "functools" and name == "partial" and args:
             return PartialV(args[0], args[1:], kwargs)
         if isinstance(recv, StreamV):
@@ -1939,6 +1990,8 @@ class LambdaV:
         self.node, self.env, self.func = node, env, func
 
 
+_OPERATOR_FUNCS = {"or_": ast.BitOr, "and_": ast.BitAnd, "xor": ast.BitXor, "add": ast.Add, "sub": ast.Sub, "mul": ast.Mult,
+                   "lshift": ast.LShift, "rshift": ast.RShift}
 _OPS = {"Eq": ast.Eq, "NotEq": ast.NotEq, "Lt": ast.Lt, "LtE": ast.LtE, "Gt": ast.Gt, "GtE": ast.GtE}
 
 
@@ -1975,6 +2028,36 @@ def _is_generator(fnode):
     except Exception:
         pass
     return r
+
+
+def _itertools_call(it, name, args):
+    """itertools.islice / chain over sequences the interpreter can enumerate (None = not evaluated)"""
+    if name == "chain":
+        out = []
+        for a in args:
+            seq = it.concrete_iter(a)
+            if seq is None:
+                return None
+            out.extend(seq)
+        return out
+    if name == "islice" and 2 <= len(args) <= 4:
+        seq = it.concrete_iter(args[0])
+        nums = [_int(a) for a in args[1:]]
+        if seq is None or not all(a is None or (isinstance(a, int) and not isinstance(a, bool)) for a in nums):
+            return None
+        import itertools as _it
+        try:
+            return list(_it.islice(seq, *nums))
+        except ValueError:
+            return None
+    return None
+
+
+class OperatorV:
+    """operator.attrgetter / itemgetter / methodcaller object"""
+
+    def __init__(self, kind, args, kwargs=None):
+        self.kind, self.args, self.kwargs = kind, list(args), dict(kwargs or {})
 
 
 class PartialV:
@@ -2210,6 +2293,7 @@ for _n in ("abs", "min", "max", "str", "float", "bool", "hex", "sorted", "list",
 
 
 # ---------------------------------------------------------------------------
+SOFT_EVENTS = []  # approximations made by any interpreter (a loop body executed once for an unknown sequence ...): explore() marks the path
 DEADLINE = None  # set by the driver: wall-clock limit for all abstract executions of one check run
 TIER_NAME = "quick"
 COND_INFO = {}   # choice key ('c', text, n) -> CondV of an exact but unrefinable comparison
@@ -2296,6 +2380,7 @@ def explore(run, max_paths=MAX_PATHS):
     work = [{}]
     while work:
         asg = work.pop()
+        n_soft = len(SOFT_EVENTS)
         try:
             res = run(asg)
         except Split as s:
@@ -2311,5 +2396,9 @@ def explore(run, max_paths=MAX_PATHS):
             continue
         except Raised as r:
             res = r
+        if len(SOFT_EVENTS) > n_soft:
+            # the run approximated something: nothing observed on this path is established (report.Ctx.path treats the key as opaque)
+            asg = dict(asg)
+            asg[("c", "approximation: " + SOFT_EVENTS[n_soft], 0)] = 1
         results.append((asg, res))
     return results
